@@ -104,6 +104,15 @@ def queries(tier):
     qs.append(q("outside.T1.defs", "T1", [{"variants": A}, {"variants": C, "leaves_from": 0, "expect": {"exec_none": True, "same_sig": [0, ["/t1/f"]]}}]))
     qs.append(q("outside.T6.nonaccepted-body", "T6", [{}, {"variants": {"tx.lib": "b"}, "leaves_from": 0, "no_value_check": True, "expect": {"not_executed": ["f", "inner"], "same_sig": [0, ["/t6/f", "/t6/inner"]]}}], timeout=500))
     qs.append(q("outside.T6.nonaccepted-var", "T6", [{}, {"leaves_from": 0, "vary": ["X"], "no_value_check": True, "expect": {"not_executed": ["f", "inner"], "same_sig": [0, ["/t6/f", "/t6/inner"]]}}], timeout=500))
+    if tier == "thorough":
+        for tn in ("T5", "T6", "T7"):
+            qs.append(q("same.%s.restart.eval" % tn, tn, [{"style": "call"}, {"leaves_from": 0, "restart": True, "style": "eval", "expect": NONE}], timeout=900))
+            qs.append(q("revert.%s.value" % tn, tn, [{}, {}, {"leaves_from": 0, "restart": True, "expect": NONE}], timeout=1500))
+        for lt in ("str", "list", "dict", "float", "bool", "tuple", "path"):
+            qs.append(q("same.T1.%s" % lt, "T1", [{"variants": A}, {"variants": A, "leaves_from": 0, "restart": True, "expect": NONE}], {"G": lt}, timeout=900))
+            qs.append(q("outside.T1.defs.%s" % lt, "T1", [{"variants": A}, {"variants": C, "leaves_from": 0, "expect": {"exec_none": True, "same_sig": [0, ["/t1/f"]]}}], {"G": lt}, timeout=900))
+        qs.append(q("revert.T5.body", "T5", [{"variants": A}, {"variants": B, "leaves_from": 0}, {"variants": A, "leaves_from": 0, "expect": NONE}], timeout=1500))
+        qs.append(q("revert.T6.body", "T6", [{}, {"variants": {"tq.m2": "b"}, "leaves_from": 0}, {"variants": {"tq.m2": "a"}, "leaves_from": 0, "restart": True, "expect": NONE}], timeout=1500))
     qs.append(q("outside.T6.sibling", "T6", [{}, {"variants": {"tq.m2": "b"}, "leaves_from": 0, "expect": {"not_executed": ["inner"], "executed": ["f"], "same_sig": [0, ["/t6/inner"]]}}], timeout=500))
     return qs
 
